@@ -269,6 +269,27 @@ Theorem C14_no_such_subcomponent_index t lvl f fname a b j k d st ce i2 d2 c x :
 Proof. apply positional_no_subcomponent. Qed.
 Print Assumptions C14_no_such_subcomponent_index.
 
+(* REFUTED for fields of datatype `varies` (recorded finding F22): the subcomponent path
+   <SEG>_<i>_<j>_<k> is decoded, component VARIES_<j> is found, and then
+   self.structure_by_name[component_name] is evaluated on a leaf-shaped reference (no map): TypeError,
+   neither a child nor ChildNotFound / ChildNotValid.  Witness: OBX_5 of v2.5. *)
+Theorem C14_no_such_varies_refuted :
+  exists s f, parent_segment Gen.Tables_v2_5.tables (unbs "OBX") = Ok s /\
+              parent_field Gen.Tables_v2_5.tables TOLERANT s (unbs "OBX_5") = Ok f /\
+              is_varies (f_dt f) = true /\
+              resolve Gen.Tables_v2_5.tables TOLERANT (PField f) (unbs "obx_5_1_1") = Err (Crash TypeError) /\
+              resolve Gen.Tables_v2_5.tables TOLERANT (PField f) (unbs "obx_5_1") =
+                Ok (TChild (mk_sentry (unbs "VARIES_1") varies_leaf CMP)).
+Proof.
+  destruct (parent_segment Gen.Tables_v2_5.tables (unbs "OBX")) as [s|] eqn:S; [|vm_compute in S; discriminate].
+  destruct (parent_field Gen.Tables_v2_5.tables TOLERANT s (unbs "OBX_5")) as [f|] eqn:Fd.
+  - exists s, f. split; [reflexivity|]. split; [exact Fd|].
+    vm_compute in S. injection S as <-. vm_compute in Fd. injection Fd as <-.
+    split; [reflexivity|]. split; vm_compute; reflexivity.
+  - exfalso. vm_compute in S. injection S as <-. vm_compute in Fd. discriminate.
+Qed.
+Print Assumptions C14_no_such_varies_refuted.
+
 (* ================================================================== *)
 (* 5. The finite obligations of every supported version                 *)
 
@@ -375,7 +396,7 @@ Theorem C14_datatypes_all_versions v t d rows :
 Proof.
   intros T I. pose proof (C14_tables_of v t T) as F.
   destruct (report_fine_parts t TOLERANT F) as (_ & S & _).
-  destruct (check_struct_spec t TOLERANT (d, rows) (S _ I)) as (f & st & P & Hst & _ & _ & _ & _ & R).
+  destruct (check_struct_spec t TOLERANT _ (d, rows) (S _ I)) as (f & st & P & Hst & _ & _ & _ & _ & _ & _ & R).
   exists f, st. split; [exact P|]. split; [exact Hst|]. intros e Ie.
   exact (reached_any_case t TOLERANT (PField f) _ _ e attrs_reserved_Field (R e Ie)).
 Qed.
@@ -400,6 +421,56 @@ Proof.
   exact (reached_any_case t TOLERANT (PComp c) _ _ e attrs_reserved_Component (R' e Ie)).
 Qed.
 Print Assumptions C14_components_all_versions.
+
+(* every field parent of every version (every FIELDS entry and every inline segment row) of complex
+   datatype d: no positional path of the field is itself a name, and <SEG>_<i>_<j> designates the very
+   component entry that <d>_<j> designates, for every j that has one *)
+Theorem C14_positional_all_versions v t fname i d :
+  tables_of v = Some t -> In (fname, SSeqDt i) (field_parents t) -> i_dt i = Some d ->
+  exists f st,
+    mk_field t TOLERANT (Some fname) None (Some (SSeqDt i)) = Ok f /\ f_st f = Some st /\
+    (forall j, field_find_child_reference t f (name_idx fname j) = Err (HL7 EChildNotFound)) /\
+    (forall j k, field_find_child_reference t f (name_idx (name_idx fname j) k) = Err (HL7 EChildNotFound)) /\
+    (forall j ce, In (name_idx d j, ce) (st_by_name st) ->
+       resolve t TOLERANT (PField f) (name_idx fname j) = Ok (TChild ce) /\
+       resolve t TOLERANT (PField f) (name_idx d j) = Ok (TChild ce)).
+Proof.
+  intros T I D. pose proof (C14_tables_of v t T) as F.
+  destruct (report_fine_parts t TOLERANT F) as (_ & S & _ & FP & PC).
+  pose proof (FP _ I) as OKp. unfold field_parent_ok in OKp. cbn [fst snd] in OKp. rewrite D in OKp.
+  apply andb_prop in OKp. destruct OKp as [OKp Sh]. apply andb_prop in OKp. destruct OKp as [U Len].
+  apply streqb_eq in U. apply Nat.eqb_eq in Len.
+  apply andb_prop in Sh. destruct Sh as [Sh V]. apply andb_prop in Sh. destruct Sh as [HS B].
+  apply negb_true_iff in B, V.
+  destruct (bsplit US fname) as [|a [|b [|c l]]] eqn:Sp; try discriminate Len.
+  unfold has_struct in HS. destruct (slookup d (t_structs t)) as [rows|] eqn:Ld; [|discriminate].
+  apply slookup_In in Ld.
+  destruct (check_struct_spec t TOLERANT _ (d, rows) (S _ Ld)) as (f0 & st0 & SF & Hst0 & M0 & K0 & _ & _ & Ud & SC & _).
+  cbn [fst] in SF, Ud. unfold struct_field in SF.
+  destruct (parse_structure t (SSeqDt (mk_info (Some d) None None (-1)))) as [st1|] eqn:P0; [|discriminate].
+  injection SF as <-. cbn [f_st] in Hst0. injection Hst0 as ->.
+  destruct (parse_structure_dt t i (mk_info (Some d) None None (-1)) st0 D P0) as (st & P & Info & O & N & L).
+  pose proof (mk_field_with_ref t TOLERANT fname (SSeqDt i) st P) as MF. rewrite U in MF.
+  assert (Dt : st_dt (Some st) = Some d) by (unfold st_dt; now rewrite Info).
+  rewrite Dt in MF.
+  set (f := mk_field_rec (Some fname) (Some d) (Some st) []) in *.
+  assert (M : has_map_st st = true) by (unfold has_map_st in *; now rewrite O).
+  assert (ND : NoDup (map fst (st_by_name st))) by (rewrite N; now apply keys_ok_NoDup).
+  assert (In_f : In fname (map fst (field_parents t))) by (change fname with (fst (fname, SSeqDt i)); now apply in_map).
+  unfold paths_clean in PC.
+  assert (H1 : forall j, field_find_child_reference t f (name_idx fname j) = Err (HL7 EChildNotFound)).
+  { intros j. apply (clean_path_not_found t (map fst (field_parents t)) f st st0); try assumption; try reflexivity.
+    - eapply path_shaped_comp; eauto.
+    - now apply name_idx_upper_id. }
+  assert (H2 : forall j k, field_find_child_reference t f (name_idx (name_idx fname j) k) = Err (HL7 EChildNotFound)).
+  { intros j k. apply (clean_path_not_found t (map fst (field_parents t)) f st st0); try assumption; try reflexivity.
+    - eapply path_shaped_sub; eauto.
+    - now apply name_idx_upper_id, name_idx_upper_id. }
+  exists f, st. split; [exact MF|]. split; [reflexivity|]. split; [exact H1|]. split; [exact H2|].
+  intros j ce Ice.
+  apply (positional_component t TOLERANT f fname a b j d st ce); try assumption; try reflexivity. apply H1.
+Qed.
+Print Assumptions C14_positional_all_versions.
 
 (* a field resolves names and long names like the representative field of its datatype: the answer
    of find_child_reference depends on the field only through its datatype and its two maps *)
